@@ -504,6 +504,9 @@ func ParseDSL(data string) (*OpenFgaDslListener, *OpenFgaDslErrorListener) {
 	cleanedLines := []string{}
 
 	for _, line := range strings.Split(data, "\n") {
+		// lines may end in CRLF: the carriage return is not content, and the lexer needs cubic time
+		// for a run of "\r\n" (each '\r' is a line break on its own and half of one)
+		line = strings.TrimSuffix(line, "\r")
 		cleanedLine := ""
 
 		switch {
